@@ -216,7 +216,7 @@ func genNode(t *rapid.T, o *GenOptions, depth int, kind string, b *budget) Spec 
 			k := rapid.SampledFrom(kinds).Draw(t, "kind")
 			s.Kids = append(s.Kids, genNode(t, o, depth+1, k, b))
 		}
-		if b.bulks > 0 && o.BulkMax > 0 && rapid.IntRange(0, 4).Draw(t, "bulk?") == 0 {
+		if b.bulks > 0 && o.BulkMax > 0 && rapid.IntRange(0, 2).Draw(t, "bulk?") == 0 {
 			b.bulks--
 			var n int
 			switch rapid.IntRange(0, 7).Draw(t, "bulkclass") { // large fan-outs cost seconds: keep them a minority
@@ -237,6 +237,10 @@ func genNode(t *rapid.T, o *GenOptions, depth int, kind string, b *budget) Spec 
 // Gen draws a tree description: the root directory and everything below it.
 func Gen(t *rapid.T, o GenOptions) Spec {
 	o.defaults()
-	b := &budget{nodes: o.MaxNodes, bulks: o.Bulks}
+	b := &budget{nodes: o.MaxNodes}
+	// a seeded fan-out costs up to seconds of system calls per pipeline: one tree in ten gets them
+	if o.BulkMax > 0 && rapid.IntRange(0, 9).Draw(t, "bulktree") == 0 {
+		b.bulks = o.Bulks
+	}
 	return genNode(t, &o, 0, Dir, b)
 }
